@@ -23,14 +23,14 @@ func dataLen(r *prng.R, o FrameOpt) int {
 }
 
 func ICMP(r *prng.R, o FrameOpt) *rec.Rec {
-	return rec.New("icmp").Set("type", r.Bits(8)).Set("code", r.Bits(8)).Set("checksum", r.Bits(16)).SetB("data", r.Bytes(dataLen(r, o)))
+	return rec.New("icmp").Set("type", r.Bits(8)).Set("code", r.Bits(8)).Set("checksum", r.Bits(16)).SetB("data", payloadBytes(r, dataLen(r, o)))
 }
 func UDP(r *prng.R, o FrameOpt) *rec.Rec {
-	return rec.New("udp").Set("sport", r.Bits(16)).Set("dport", r.Bits(16)).Set("length", r.Bits(16)).Set("checksum", r.Bits(16)).SetB("data", r.Bytes(dataLen(r, o)))
+	return rec.New("udp").Set("sport", r.Bits(16)).Set("dport", r.Bits(16)).Set("length", r.Bits(16)).Set("checksum", r.Bits(16)).SetB("data", payloadBytes(r, dataLen(r, o)))
 }
 func TCP(r *prng.R, o FrameOpt) *rec.Rec {
 	return rec.New("tcp").Set("sport", r.Bits(16)).Set("dport", r.Bits(16)).Set("seq", r.Bits(32)).Set("ack", r.Bits(32)).Set("data_off", r.Bits(4)).
-		Set("flags", r.Bits(6)).Set("window", r.Bits(16)).Set("checksum", r.Bits(16)).Set("urgent", r.Bits(16)).SetB("data", r.Bytes(dataLen(r, o)))
+		Set("flags", r.Bits(6)).Set("window", r.Bits(16)).Set("checksum", r.Bits(16)).Set("urgent", r.Bits(16)).SetB("data", payloadBytes(r, dataLen(r, o)))
 }
 func ARP(r *prng.R) *rec.Rec {
 	hl, pl := 6, 4
@@ -72,7 +72,7 @@ func ipPayload(r *prng.R, proto uint8, v6 bool, p *rec.Rec, o FrameOpt) {
 	case proto == 17:
 		p.SetS("payload", UDP(r, o))
 	default:
-		p.SetB("data", r.Bytes(dataLen(r, o)))
+		p.SetB("data", payloadBytes(r, dataLen(r, o)))
 	}
 }
 
@@ -210,7 +210,7 @@ func Frame(r *prng.R, o FrameOpt) *rec.Rec {
 				break
 			}
 		}
-		e.Set("ethertype", et).SetB("data", r.Bytes(dataLen(r, o)))
+		e.Set("ethertype", et).SetB("data", payloadBytes(r, dataLen(r, o)))
 	}
 	return e
 }
@@ -307,4 +307,23 @@ func PacketOfKind(r *prng.R, kind string, o FrameOpt) *rec.Rec {
 		return LLDP(r).Sub("ttl")
 	}
 	return nil
+}
+
+// payloadBytes returns n opaque payload bytes; one time in four some of them spell values that mean something to a
+// decoder one layer up or down (VLAN / IPv4 / IPv6 / ARP ethertypes, the Nicira and ONF experimenter ids, all-ones
+// type codes, an OpenFlow header) at the offsets where such a decoder would look.
+func payloadBytes(r *prng.R, n int) []byte {
+	b := r.Bytes(n)
+	if n < 4 || !r.Chance(1, 4) {
+		return b
+	}
+	words := [][]byte{{0x81, 0x00}, {0x88, 0xa8}, {0x08, 0x00}, {0x86, 0xdd}, {0x08, 0x06}, {0xff, 0xff}, {0x00, 0x00, 0x23, 0x20}, {0x4f, 0x4e, 0x46, 0x00}, {0x04, 0x0a, 0x00, 0x08}, {0x00, 0x00}}
+	for k := r.Pick(1, 2, 3); k > 0; k-- {
+		w := words[r.Intn(len(words))]
+		at := r.Pick(0, 2, 4, 8, 12, 14, 16, r.Intn(n))
+		if at+len(w) <= n {
+			copy(b[at:], w)
+		}
+	}
+	return b
 }
